@@ -21,11 +21,11 @@ fn apply(b: Builder, name: &str, x: &[u8]) -> Builder {
     match name {
         "cmdline" => b.cmdline(CommandLineTag::new(std::str::from_utf8(x).unwrap())),
         "loader" => b.bootloader(BootLoaderNameTag::new(std::str::from_utf8(x).unwrap())),
-        "module" => b.add_module(ModuleTag::new(rd32(x, 0), rd32(x, 4), std::str::from_utf8(&x[8..]).unwrap())),
-        "meminfo" => b.meminfo(BasicMemoryInfoTag::new(rd32(x, 0), rd32(x, 4))),
-        "bootdev" => b.bootdev(BootdevTag::new(rd32(x, 0), rd32(x, 4), rd32(x, 8))),
+        "module" => b.add_module(ModuleTag::new(rd32(x, 0) as _, rd32(x, 4) as _, std::str::from_utf8(&x[8..]).unwrap())),
+        "meminfo" => b.meminfo(BasicMemoryInfoTag::new(rd32(x, 0) as _, rd32(x, 4) as _)),
+        "bootdev" => b.bootdev(BootdevTag::new(rd32(x, 0) as _, rd32(x, 4) as _, rd32(x, 8) as _)),
         "mmap" => {
-            let areas: Vec<MemoryArea> = x.chunks_exact(24).map(|c| MemoryArea::new(rd64(c, 0), rd64(c, 8), MemoryAreaTypeId::from(rd32(c, 16)))).collect();
+            let areas: Vec<MemoryArea> = x.chunks_exact(24).map(|c| MemoryArea::new(rd64(c, 0) as _, rd64(c, 8) as _, MemoryAreaTypeId::from(rd32(c, 16)))).collect();
             b.mmap(MemoryMapTag::new(&areas))
         }
         "vbe" => {
@@ -35,7 +35,7 @@ fn apply(b: Builder, name: &str, x: &[u8]) -> Builder {
             let mut m = VBEModeInfo::default();
             m.pitch = rd16(x, 536);
             m.bpp = x[545];
-            b.vbe(VBEInfoTag::new(rd16(x, 0), rd16(x, 2), rd16(x, 4), rd16(x, 6), c, m))
+            b.vbe(VBEInfoTag::new(rd16(x, 0) as _, rd16(x, 2) as _, rd16(x, 4) as _, rd16(x, 6) as _, c, m))
         }
         "fb" => {
             let rest = &x[24..];
@@ -52,23 +52,23 @@ fn apply(b: Builder, name: &str, x: &[u8]) -> Builder {
                 },
                 _ => FramebufferType::Text,
             };
-            b.framebuffer(FramebufferTag::new(rd64(x, 0), rd32(x, 8), rd32(x, 12), rd32(x, 16), x[20], bt))
+            b.framebuffer(FramebufferTag::new(rd64(x, 0) as _, rd32(x, 8) as _, rd32(x, 12) as _, rd32(x, 16) as _, x[20], bt))
         }
-        "elf" => b.elf_sections(ElfSectionsTag::new(rd32(x, 0), rd32(x, 4), rd32(x, 8), &x[12..])),
-        "apm" => b.apm(ApmTag::new(rd16(x, 0), rd16(x, 2), rd32(x, 4), rd16(x, 8), rd16(x, 10), rd16(x, 12), rd16(x, 14), rd16(x, 16), rd16(x, 18))),
-        "efi32" => b.efi32(EFISdt32Tag::new(rd32(x, 0))),
-        "efi64" => b.efi64(EFISdt64Tag::new(rd64(x, 0))),
+        "elf" => b.elf_sections(ElfSectionsTag::new(rd32(x, 0) as _, rd32(x, 4) as _, rd32(x, 8) as _, &x[12..])),
+        "apm" => b.apm(ApmTag::new(rd16(x, 0) as _, rd16(x, 2) as _, rd32(x, 4) as _, rd16(x, 8) as _, rd16(x, 10) as _, rd16(x, 12) as _, rd16(x, 14) as _, rd16(x, 16) as _, rd16(x, 18) as _)),
+        "efi32" => b.efi32(EFISdt32Tag::new(rd32(x, 0) as _)),
+        "efi64" => b.efi64(EFISdt64Tag::new(rd64(x, 0) as _)),
         "smbios" => b.add_smbios(SmbiosTag::new(x[0], x[1], &x[8..])),
-        "rsdp1" => b.rsdpv1(RsdpV1Tag::new(x[8], x[9..15].try_into().unwrap(), x[15], rd32(x, 16))),
-        "rsdp2" => b.rsdpv2(RsdpV2Tag::new(x[8], x[9..15].try_into().unwrap(), x[15], rd32(x, 16), rd32(x, 20), rd64(x, 24), x[32])),
+        "rsdp1" => b.rsdpv1(RsdpV1Tag::new(x[8], x[9..15].try_into().unwrap(), x[15], rd32(x, 16) as _)),
+        "rsdp2" => b.rsdpv2(RsdpV2Tag::new(x[8], x[9..15].try_into().unwrap(), x[15], rd32(x, 16) as _, rd32(x, 20) as _, rd64(x, 24) as _, x[32])),
         "network" => b.network(NetworkTag::new(x)),
         "efimmap" => b.efi_mmap(EFIMemoryMapTag::new_from_map(rd32(x, 0), rd32(x, 4), &x[8..])),
         "efibs" => b.efi_bs(EFIBootServicesNotExitedTag::new()),
-        "ih32" => b.efi32_ih(EFIImageHandle32Tag::new(rd32(x, 0))),
-        "ih64" => b.efi64_ih(EFIImageHandle64Tag::new(rd64(x, 0))),
-        "loadbase" => b.image_load_addr(ImageLoadPhysAddrTag::new(rd32(x, 0))),
+        "ih32" => b.efi32_ih(EFIImageHandle32Tag::new(rd32(x, 0) as _)),
+        "ih64" => b.efi64_ih(EFIImageHandle64Tag::new(rd64(x, 0) as _)),
+        "loadbase" => b.image_load_addr(ImageLoadPhysAddrTag::new(rd32(x, 0) as _)),
         "custom" => {
-            let t = multiboot2_common::new_boxed::<DynSizedStructure<TagHeader>>(TagHeader::new(TagTypeId::new(rd32(x, 0)), 0), &[&x[4..]]);
+            let t = multiboot2_common::new_boxed::<DynSizedStructure<TagHeader>>(TagHeader::new(TagTypeId::new(rd32(x, 0) as _), 0), &[&x[4..]]);
             b.add_custom_tag(t)
         }
         n => panic!("unknown slot {}", n),
@@ -150,17 +150,17 @@ fn happly(b: h::Builder, name: &str, x: &[u8]) -> h::Builder {
             let ids: Vec<h::MbiTagTypeId> = x[2..].chunks_exact(4).map(|c| h::MbiTagTypeId::new(rd32(c, 0))).collect();
             b.information_request_tag(h::InformationRequestHeaderTag::new(f, &ids))
         }
-        "h_address" => b.address_tag(h::AddressHeaderTag::new(f, rd32(x, 2), rd32(x, 6), rd32(x, 10), rd32(x, 14))),
-        "h_entry" => b.entry_tag(h::EntryAddressHeaderTag::new(f, rd32(x, 2))),
+        "h_address" => b.address_tag(h::AddressHeaderTag::new(f, rd32(x, 2) as _, rd32(x, 6) as _, rd32(x, 10) as _, rd32(x, 14) as _)),
+        "h_entry" => b.entry_tag(h::EntryAddressHeaderTag::new(f, rd32(x, 2) as _)),
         "h_console" => b.console_tag(h::ConsoleHeaderTag::new(
             f,
             if rd32(x, 2) & 1 == 1 { h::ConsoleHeaderTagFlags::EgaTextSupported } else { h::ConsoleHeaderTagFlags::ConsoleRequired },
         )),
-        "h_fb" => b.framebuffer_tag(h::FramebufferHeaderTag::new(f, rd32(x, 2), rd32(x, 6), rd32(x, 10))),
+        "h_fb" => b.framebuffer_tag(h::FramebufferHeaderTag::new(f, rd32(x, 2) as _, rd32(x, 6) as _, rd32(x, 10) as _)),
         "h_modalign" => b.module_align_tag(h::ModuleAlignHeaderTag::new(f)),
         "h_efibs" => b.efi_bs_tag(h::EfiBootServiceHeaderTag::new(f)),
-        "h_efi32" => b.efi_32_tag(h::EntryEfi32HeaderTag::new(f, rd32(x, 2))),
-        "h_efi64" => b.efi_64_tag(h::EntryEfi64HeaderTag::new(f, rd32(x, 2))),
+        "h_efi32" => b.efi_32_tag(h::EntryEfi32HeaderTag::new(f, rd32(x, 2) as _)),
+        "h_efi64" => b.efi_64_tag(h::EntryEfi64HeaderTag::new(f, rd32(x, 2) as _)),
         "h_reloc" => b.relocatable_tag(h::RelocatableHeaderTag::new(
             f,
             rd32(x, 2),
